@@ -275,6 +275,34 @@ fn scenario(kind: usize, fillk: usize, out_fd: i32) -> i32 {
             }
         }
     }
+    // ---- one pipe registered for two signals through duplicated descriptors; the first registration is removed, the pipe
+    //      is full at the next delivery of the other signal: that delivery must not block either
+    {
+        wr(out_fd, "DUP-SHARED one full pipe registered twice through dup(), first registration removed\n");
+        let other = libc::SIGUSR2;
+        let _keep2 = unsafe { signal_hook_registry::register(other, || ()) };
+        let mut fds = [0; 2];
+        unsafe { libc::pipe(fds.as_mut_ptr()) };
+        let w2 = unsafe { libc::dup(fds[1]) };
+        let a = signal_hook::low_level::pipe::register_raw(sig, fds[1]);
+        let b = signal_hook::low_level::pipe::register_raw(other, w2);
+        if let (Ok(a), Ok(b)) = (a, b) {
+            // fill it completely through a third descriptor in non-blocking mode (the mode is shared by all of them)
+            let junk = [0u8; 4096];
+            while unsafe { libc::write(w2, junk.as_ptr() as *const _, junk.len()) } > 0 {}
+            while unsafe { libc::write(w2, junk.as_ptr() as *const _, 1) } > 0 {}
+            signal_hook::low_level::unregister(a);
+            let w0 = WAKES.load(Ordering::SeqCst);
+            unsafe { libc::raise(other) };
+            if WAKES.load(Ordering::SeqCst) - w0 != 1 {
+                bad("a delivery on the remaining registration of a dup-shared pipe did not make exactly one wake attempt".into());
+            }
+            signal_hook::low_level::unregister(b);
+        } else {
+            bad("registration of a valid (duplicated) descriptor failed".into());
+        }
+        unsafe { libc::close(fds[0]) };
+    }
     let end_fds = crate::sig::open_fds();
     let expect: Vec<c_int> = baseline_fds.iter().cloned().filter(|f| *f != wfd && *f != rfd).collect();
     if end_fds != expect {
